@@ -52,6 +52,12 @@ def shaped(g):
                 b = mapgen.SL(mapgen.P(b0) if bp else b0)
                 out.append(("each-%s-%s" % ("ptr" if ap else "val", "ptr" if bp else "val"),
                             mapgen.mk_spec([mapgen.F("List", a), mapgen.F("Name", mapgen.STR)], [mapgen.F("List", b), mapgen.F("Name", mapgen.STR)])))
+    # a `map:` tag on an EMBEDDED member (`-` or a name; value and pointer embeds), with and without a deeper namesake
+    for side in ("src", "dest"):
+        for kind, ns in (("-", 1.0), ("-", 0.0), ("name", 1.0)):
+            out.append(("embed-tagged-%s-%s" % ("skip" if kind == "-" else "name", side),
+                        g.pair(embeds=1.0, depth2=0.6, deep=0.9, embed_tag=1.0, embed_tag_side=side, embed_tag_kind=kind, embed_tag_namesake=ns,
+                               diamond=0.0, selfembed=0.0, kinds=["same", "conv"], names=["ident"], n=(4, 6), shadow=0)))
     # the same struct type embedded twice at different depths: the shallower occurrence is the one that is mapped
     for side in ("src", "dest"):
         out.append(("embedded-twice-" + side, g.pair(embeds=1.0, depth2=1.0, deep=0.95, diamond=1.0, diamond_side=side, selfembed=0.0,
